@@ -185,6 +185,11 @@ impl AsyncWrite for UtpStreamWriteHalf {
             )));
         }
 
+        // Nothing to wait for: no space is needed for an empty write.
+        if buf.is_empty() {
+            return Poll::Ready(Ok(0));
+        }
+
         let count = this.user_tx.producer.lock().push_slice(buf);
         this.written_without_yield += count as u64;
         if count == 0 {
